@@ -8,6 +8,7 @@ MODULES = [
     "contracts.c_future",
     "contracts.c_retry",
     "contracts.c_timeout",
+    "contracts.c_retry2",
 ]
 EXPECTED_MIN_OBLIGATIONS = {}
 PROPERTY_ASSUMPTIONS = {}
